@@ -171,7 +171,7 @@ func (fr *Frame) exec(ins ssa.Instruction, st *State) {
 		et := ins.Type().Underlying().(*types.Slice).Elem()
 		ln := fr.term(ins.Len)
 		fr.safetyOb(st, "makeslice", "makeslice: len out of range", ins.Pos(), fmt.Sprintf("(>= %s 0)", ln))
-		fr.env[ins] = Val{t: vc.define(regName(ins), sn, fmt.Sprintf("(mk_%s %s %s false)", sn, S.constArr(et), ln)), typ: ins.Type()}
+		fr.env[ins] = Val{t: vc.define(regName(ins), sn, vc.mkSlice(st, ins.Type(), S.constArr(et), ln, "false")), typ: ins.Type()}
 	case *ssa.Slice:
 		fr.execSlice(ins, st)
 	case *ssa.BinOp:
@@ -325,17 +325,23 @@ func (fr *Frame) execSlice(ins *ssa.Slice, st *State) {
 	case *types.Pointer: // *[N]T -> slice
 		p := fr.placeOf(ins.X)
 		arr := u.Elem().Underlying().(*types.Array)
-		if lo != "" || hi != "" {
-			unsup("slicing an array with bounds")
+		if lo != "" && lo != "0" {
+			unsup("slicing an array with a lower bound")
 		}
 		a := ex.load(st, p)
 		sn := S.sortOf(ins.Type())
 		av := vc.define("arr", S.sortOf(arr), a.t)
+		if hi != "" {
+			// make([]T, n, cap): a prefix of a fresh array
+			fr.safetyOb(st, "slicebounds", "slice bounds in range", ins.Pos(), fmt.Sprintf("(and (<= 0 %s) (<= %s %d))", hi, hi, arr.Len()))
+			fr.env[ins] = Val{t: vc.define(regName(ins), sn, vc.mkSlice(st, ins.Type(), av, hi, "false")), typ: ins.Type()}
+			return
+		}
 		var elems []string
 		for i := int64(0); i < arr.Len(); i++ {
 			elems = append(elems, fmt.Sprintf("(select %s %d)", av, i))
 		}
-		fr.env[ins] = Val{t: vc.define(regName(ins), sn, fmt.Sprintf("(mk_%s %s %d false)", sn, av, arr.Len())), typ: ins.Type(), elems: elems, elemsKnown: true}
+		fr.env[ins] = Val{t: vc.define(regName(ins), sn, vc.mkSlice(st, ins.Type(), av, fmt.Sprint(arr.Len()), "false")), typ: ins.Type(), elems: elems, elemsKnown: true}
 	case *types.Slice:
 		x := fr.val(ins.X)
 		sn := S.sortOf(x.typ)
@@ -349,14 +355,15 @@ func (fr *Frame) execSlice(ins *ssa.Slice, st *State) {
 		// bounds are checked against cap, which is not modelled: len is a sound under-approximation for the obligation
 		fr.safetyOb(st, "slicebounds", "slice bounds in range", ins.Pos(), fmt.Sprintf("(and (<= 0 %s) (<= %s %s) (<= %s (len_%s %s)))", l, l, h, h, sn, x.t))
 		var arr string
+		xa := vc.sliceArr(st, x.typ, x.t)
 		if l == "0" {
-			arr = fmt.Sprintf("(arr_%s %s)", sn, x.t)
+			arr = xa
 		} else {
 			es := S.sortOf(u.Elem())
 			arr = vc.fresh("sub", "(Array Int "+es+")")
-			vc.assume(st.pc, fmt.Sprintf("(forall ((i Int)) (! (=> (>= i 0) (= (select %s i) (select (arr_%s %s) (+ i %s)))) :pattern ((select %s i))))", arr, sn, x.t, l, arr))
+			vc.assume(st.pc, fmt.Sprintf("(forall ((i Int)) (! (=> (>= i 0) (= (select %s i) (select %s (+ i %s)))) :pattern ((select %s i))))", arr, xa, l, arr))
 		}
-		fr.env[ins] = Val{t: vc.define(regName(ins), sn, fmt.Sprintf("(mk_%s %s (- %s %s) (and (nil_%s %s) (= %s %s)))", sn, arr, h, l, sn, x.t, h, l)), typ: ins.Type()}
+		fr.env[ins] = Val{t: vc.define(regName(ins), sn, vc.mkSlice(st, ins.Type(), arr, fmt.Sprintf("(- %s %s)", h, l), fmt.Sprintf("(and (nil_%s %s) (= %s %s))", sn, x.t, h, l))), typ: ins.Type()}
 	default:
 		unsup("Slice of %v", ins.X.Type())
 	}
